@@ -3,6 +3,7 @@ package c11
 import (
 	"context"
 	"fmt"
+	"os"
 	"strings"
 	"sync"
 	"testing"
@@ -122,9 +123,36 @@ func spawnLoop(i int) ([]val.V, val.V) {
 	return box.ParseForms(src), val.L(val.I(base+3), val.I(base+2), val.I(base+1), val.I(base))
 }
 
+// deepRec: a non-tail recursion of the given depth that meets the other deep recursions at its bottom
+// ((rv!) is a harness builtin: a rendezvous with a short timeout), directly or inside a future
+func deepRec(i, depth int, inFuture bool) ([]val.V, val.V) {
+	p := fmt.Sprintf("t%d_", i)
+	callIt := fmt.Sprintf("(%sdeep %d)", p, depth)
+	if inFuture {
+		callIt = "(deref (future " + callIt + "))"
+	}
+	src := fmt.Sprintf("(def %sdeep (fn (n) (if (< n 1) (do (rv!) 0) (+ 1 (%sdeep (- n 1)))))) %s", p, p, callIt)
+	return box.ParseForms(src), val.I(depth)
+}
+
 func genCase(t *rapid.T) Case {
 	c := Case{Reps: 1 + gen.Uniform(t, "reps", 6), Writer: gen.Uniform(t, "writer", 2) == 0, Expect: map[int]val.V{}}
 	n := 2 + gen.Uniform(t, "nprogs", 9)
+	if gen.Chance(t, "alldeep", 16) {
+		// every evaluation is deep in the host stack at the same moment
+		c.Reps = 1 + gen.Uniform(t, "deepreps", 2)
+		for i := 0; i < n; i++ {
+			depth := []int{500, 5000, 30000}[gen.Uniform(t, "depth", 3)]
+			if os.Getenv("VERIF_RACE") != "" && depth > 3000 {
+				depth = 3000 // the race detector makes deep host stacks very slow; the race shards look for races, not for depth
+			}
+			forms, want := deepRec(i, depth, gen.Chance(t, "deepfuture", 3))
+			c.Progs = append(c.Progs, forms)
+			c.Std = append(c.Std, true)
+			c.Expect[i] = want
+		}
+		return c
+	}
 	for i := 0; i < n; i++ {
 		if gen.Uniform(t, "spawn", 8) == 0 {
 			forms, want := spawnLoop(i)
@@ -179,8 +207,46 @@ type traces struct {
 	log map[int][]val.V
 }
 
+// rendezvous: arrivals wait for each other (need of them) for at most 300 ms
+type rendezvous struct {
+	mu    sync.Mutex
+	need  int
+	count int
+	ch    chan struct{}
+}
+
+func (r *rendezvous) arrive() {
+	r.mu.Lock()
+	if r.need <= 1 {
+		r.mu.Unlock()
+		return
+	}
+	if r.ch == nil {
+		r.ch = make(chan struct{})
+	}
+	ch := r.ch
+	r.count++
+	if r.count >= r.need {
+		close(ch)
+		r.ch, r.count = nil, 0
+		r.mu.Unlock()
+		return
+	}
+	r.mu.Unlock()
+	select {
+	case <-ch:
+	case <-time.After(300 * time.Millisecond):
+	}
+}
+
 func newEnv(n int) (types.EnvType, *traces) {
+	return newEnvRV(n, 1)
+}
+
+func newEnvRV(n, meet int) (types.EnvType, *traces) {
 	e := box.FullEnv()
+	rv := &rendezvous{need: meet}
+	call.CallOverrideFN(e, "rv!", func() (types.MalType, error) { rv.arrive(); return nil, nil })
 	tr := &traces{log: map[int][]val.V{}}
 	for i := 0; i < n; i++ {
 		i := i
@@ -253,18 +319,31 @@ func check(c Case) pbt.Verdict {
 	// solo: each program alone in a fresh environment
 	solo := make([]outcome, n)
 	for i, p := range c.Progs {
+		if want, ok := c.Expect[i]; ok && strings.Contains(progText(p), "(rv!)") {
+			solo[i] = outcome{v: want} // known by construction: the depth
+			continue
+		}
 		e, tr := newEnv(n)
 		o, bad := runProg(ctx, e, tr, i, p)
 		if bad != "" {
 			return pbt.Verdict{Excluded: "solo-panics(C04)"}
 		}
 		solo[i] = o
+		if want, ok := c.Expect[i]; ok && (o.isErr || !val.Eq(o.v, want)) && strings.Contains(progText(p), "(rv!)") {
+			return pbt.Verdict{Excluded: "deep-recursion-fails-alone"} // not this property's business
+		}
 		if want, ok := c.Expect[i]; ok && (o.isErr || !val.Eq(o.v, want)) {
 			return pbt.Failf("futures-see-later-bindings", "program %d, run alone, must give %s (each future started by the loop reads the binding of ITS iteration) but gives {%s}\n%s", i, val.Canon(want), o, progText(p))
 		}
 	}
 	// together: one environment, all programs at once, each repeated
-	e, tr := newEnv(n)
+	meet := 0
+	for _, p := range c.Progs {
+		if strings.Contains(progText(p), "(rv!)") {
+			meet++
+		}
+	}
+	e, tr := newEnvRV(n, meet)
 	start := make(chan struct{})
 	var wg sync.WaitGroup
 	var mu sync.Mutex
@@ -364,6 +443,9 @@ func check(c Case) pbt.Verdict {
 	v.Labels = append(v.Labels, fmt.Sprintf("programs:%d", n))
 	if c.Writer {
 		v.Labels = append(v.Labels, "with-writer-and-reader")
+	}
+	if meet > 0 {
+		v.Labels = append(v.Labels, fmt.Sprintf("deep-recursions-side-by-side:%d", meet))
 	}
 	return v
 }
